@@ -466,7 +466,7 @@ def model_divergences(ctx, res):
     lines = []
     for r in results:
         lines += [p[0] for p in r.pending] + [p[0] for p in r.dead_pending]
-    replies = ctx.driver.run(lines)
+    replies = mpsim.driver_run(ctx, lines)
     out = [[] for _ in results]
     if replies is None:
         return out, 0
@@ -766,7 +766,7 @@ def probe_label_named_pid(ctx):
                 found.append({'sig': sig, 'what': "mode 'min': children pid='a' and pid='b' are collected as %r "
                               "(the user's label is dropped and the two series are merged)" % samples,
                               'witness': "Gauge('gp','h',['pid'],multiprocess_mode='min'); labels('a').set(1); labels('b').set(2) in process 5"})
-    replies = ctx.driver.run(lines)
+    replies = mpsim.driver_run(ctx, lines)
     if replies is not None:
         for (mode, real), rep in zip(reals, replies):
             r = mpsim.parse_merge_reply(rep)
@@ -871,7 +871,7 @@ def run(ctx):
                 'death/reuse happened; distinct by the canonical collected output')
     quick = ctx.tier == 'quick'
     budget = 40.0 if quick else 420.0
-    n_random = 170 if quick else 4000
+    n_random = 380 if quick else 4000
     n_fork = 3 if quick else 150
     if ctx.broken:
         n_random *= 3
